@@ -16,6 +16,11 @@ META = {
         "design_ref": "DESIGN.md §4 C04",
         "note": "Covers the --set/--set-string/--set-literal/--set-json(empty) grammar clause of C04 only (H04-set + frame). Trusted: go/ssa lowering, gosym interpreter and intrinsics (re-validated every run by native replay of sampled paths), z3. Bounds: atoms ≤4 bytes a-z, indices 0-3, arbitrary inputs ≤5 (quick) / ≤7 (thorough) bytes over a 15-symbol alphabet; ASCII only.",
     },
+    "C06": {
+        "text": "Bounded symbolic model checking of the four real Run methods with EVERY option field a symbolic input (DryRun, the six DryRunOption spellings, ClientOnly, CreateNamespace, Replace, Atomic, DisableHooks, SkipCRDs, IncludeCRDs, TakeOwnership, HideSecret, WaitForJobs, Force, CleanupOnFail, KeepHistory, MaxHistory, post-renderer present, IsUpgrade, SubNotes), charts with/without hook and CRD, histories empty / deployed / deployed+failed, under the documented dry-run predicate: on every feasible path the recorded write logs of the model cluster and of the store are empty, history and cluster are unchanged, and with ClientOnly the originally configured client sees no call at all. The solver prunes infeasible flag combinations; the rest is exhaustive.",
+        "design_ref": "DESIGN.md §4 C06",
+        "note": "Same cuts as C01 (engine.Render, resource.Helper.Get, model cluster, store wrapper). helm template's cobra layer and OutputDir file writes are outside the claim.",
+    },
     "C08": {
         "text": "Bounded symbolic model checking of the real SortManifests/SplitManifests/manifestFile.sort/kind sorters: for every combination (within the bound) of document layout (separator variants, leading/trailing separators, partial files), head shape (kind known/unknown/empty, metadata nil, annotations nil/empty/other/hook), event lists (known, mixed case with spaces, unknown, mixed) and symbolic weight strings, each document lands exactly once in the manifest list or the hook list, is dropped iff it names an unknown event, partials never appear, content is unaltered, and both lists are ordered by the fixed kind order with unknown kinds last and stable within a kind.",
         "design_ref": "DESIGN.md §4 C08 (H08-part)",
@@ -25,6 +30,11 @@ META = {
         "text": "One symbolic step from an arbitrary small store: records with symbolic valid names (the real ValidateReleaseName regexp decided symbolically), symbolic revisions and statuses, then one symbolic Create/Get/Update/Delete/History call through Storage, compared with a reference map; the whole observable state afterwards is compared too. The solver decides every assertion for all names/revisions within the bound; this is what found the '.v' key-parsing defect.",
         "design_ref": "DESIGN.md §4 C10",
         "note": "Memory backend only so far (Secrets/ConfigMaps backends and SQL are outside the claim). Bounds: ≤2 pre-existing records, names 1-3 bytes over {a,v,1,.,-} (quick) / 1-4 (thorough), revisions 0-9 (quick) / 0-99 (thorough), 3 statuses.",
+    },
+    "C12": {
+        "text": "Bounded symbolic model checking of the real execHook/hookByWeight/deleteHookByPolicy on 1-3 hooks with symbolic 64-bit weights, symbolic event membership, symbolic delete-policy sets (incl. the empty default), CRD-kind hooks and a symbolic single readiness failure: the recorded create/wait/delete sequence must be the matching hooks in (weight, name) order, strictly one at a time, with before-hook-creation / hook-succeeded / hook-failed deletions exactly as the policies say and CRD hooks never deleted; plus end-to-end install/upgrade runs showing a failing pre-hook touches no release resource, a failing post-hook fails the operation, --no-hooks creates none, hooks never appear in the manifest.",
+        "design_ref": "DESIGN.md §4 C12",
+        "note": "Hook Create being rejected is covered by C03's fault model, log-output policies and test hooks are outside the claim. Bounds: <=2 hooks (quick) / <=3 (thorough), weights in [-2,2], <=1 readiness failure.",
     },
     "C16": {
         "text": "Bounded symbolic model checking of the real archive-name pipeline and size accounting of LoadArchiveFiles and of the real plugin cleanJoin + securejoin loop: for every header name (all byte strings up to the bound over the alphabet that matters: letters, '.', '/', backslash, ':', a drive letter) and every tar type flag, whatever is accepted is a clean relative path without '..' segment, backslash or drive prefix; for symbolic 64-bit sizes and limits, accepted archives respect the per-file and total limits and the stream is never asked for more than the remaining budget.",
@@ -44,4 +54,4 @@ META = {
 }
 
 _NYB = "harness not built yet in this session (design in DESIGN.md §4); not claimed until its check runs clean"
-NOT_APPLICABLE = {p: _NYB for p in ["C02", "C05", "C06", "C07", "C09", "C11", "C12", "C13", "C14", "C15", "C17", "C19"]}
+NOT_APPLICABLE = {p: _NYB for p in ["C02", "C05", "C07", "C09", "C11", "C13", "C14", "C15", "C17", "C19"]}
